@@ -43,26 +43,28 @@ Valid(layer, s) ==
 Seqs(Ops, n) == UNION { [1..k -> Ops] : k \in 1..n }
 
 Pairs(layer, Sends, Recvs, pcs) ==
-  { [layer |-> layer, passcred |-> pc, part |-> "pair", ops |-> <<s, r>>] : s \in Sends, r \in Recvs, pc \in pcs }
+  { [layer |-> layer, passcred |-> pc, part |-> "pair", inspect |-> "now", ops |-> <<s, r>>] : s \in Sends, r \in Recvs, pc \in pcs }
+\* when the receiving caller looks at the messages it was handed: "now" = right after each receive,
+\* "lag" = after the following receive (the previous message is still held), "end" = all after the sequence
 Hist(layer, Ops, n, fin) ==
-  { [layer |-> layer, passcred |-> TRUE, part |-> "hist", ops |-> Append(s, fin)] :
-      s \in { x \in Seqs(Ops, n) : Valid(layer, x) } }
+  { [layer |-> layer, passcred |-> TRUE, part |-> "hist", inspect |-> i, ops |-> Append(s, fin)] :
+      s \in { x \in Seqs(Ops, n) : Valid(layer, x) }, i \in {"lag", "end"} }
 \* the receive of a pair is replaced by recvall so that a pair whose send is refused does not block
 Fix(c) == [c EXCEPT !.ops = <<c.ops[1], [c.ops[2] EXCEPT !.op = "recvall"]>>]
 
 \* ---- receiver short of descriptor slots (RLIMIT_NOFILE): free slots around the number attached
 Frees == {0, 1, 2, MaxFds - 1}
 PressPairs ==
-  { [layer |-> "raw", passcred |-> TRUE, part |-> "press", ops |-> <<S(l, 0, k, c, ""), RAF(Big + 64, "", f)>>] :
+  { [layer |-> "raw", passcred |-> TRUE, part |-> "press", inspect |-> "now", ops |-> <<S(l, 0, k, c, ""), RAF(Big + 64, "", f)>>] :
       l \in {1, Buf}, k \in FdsFull, c \in {"none", "forged"}, f \in Frees }
-  \cup UNION { { [layer |-> "gob", passcred |-> TRUE, part |-> "press", ops |-> <<S(0, v, k, "none", t), RAF(0, w, f)>>] :
+  \cup UNION { { [layer |-> "gob", passcred |-> TRUE, part |-> "press", inspect |-> "now", ops |-> <<S(0, v, k, "none", t), RAF(0, w, f)>>] :
       v \in {64, Cap - Desc(t)}, k \in FdsFull, w \in {"M", "X"}, f \in Frees } : t \in {"A", "B"} }
 \* histories: a message refused for lack of slots must not disturb what follows (ledger, gob stream)
 PressOps(layer) == IF layer = "raw"
                    THEN { S(1, 0, k, "none", "") : k \in {0, 1, 2} } \cup { RF(Big + 64, "", f) : f \in {-1, 1} }
                    ELSE { S(0, 64, k, "none", t) : k \in {0, 2}, t \in {"A", "B"} } \cup { RF(0, "M", f) : f \in {-1, 1} }
 PressHist(layer) ==
-  { [layer |-> layer, passcred |-> TRUE, part |-> "presshist", ops |-> Append(s, RAF(IF layer = "raw" THEN Big + 64 ELSE 0, IF layer = "raw" THEN "" ELSE "M", f))] :
+  { [layer |-> layer, passcred |-> TRUE, part |-> "presshist", inspect |-> "end", ops |-> Append(s, RAF(IF layer = "raw" THEN Big + 64 ELSE 0, IF layer = "raw" THEN "" ELSE "M", f))] :
       s \in { x \in Seqs(PressOps(layer), HLen) : Valid(layer, x) }, f \in {1, 2} }
 
 Cases ==
